@@ -3,6 +3,7 @@ CONSTANTS
   Vars <- MC_Vars4
   KindsAt <- MC_KindsAll4
   ICsAt <- MC_ICsAll4
+  LineOK <- MC_LineAny
   ExoPaths <- MC_ExoPaths
   ConstVal = 5
   MinVars = 4
